@@ -98,7 +98,16 @@ def run(ctx):
         {"name": "ConnectionLost->NotConnected", "atoms": [r" is ConnectionLost$"], "leaf": r"^return Result::Err\(SendDatagramError::NotConnected\)$"},
     ]
     ps = walk(f)
-    match_table(ctx, "C03-R3", f, ps, rows, "Driver::send_datagram")
+    one = [p for p in nonpanic(ps)]
+    mm = re.match(r"^return Result::map_err\(%s,fn:([\w:]+)\)$" % SD, path_sig(one[0])[1]) if len(one) == 1 else None
+    helper = [g for g in A.fn_list if mm and g.body and re.sub(r"\b(?:[a-z_][a-z0-9_#]*::)+", "", g.path) == mm.group(1) and g.path.startswith("wtransport::driver::")]
+    if mm and len(helper) == 1:
+        # the error map was extracted into a private function: `x.map_err(helper)` — the Ok value is quinn's `()`, the rows are the helper's
+        pn = helper[0].body["locals"][1].get("name") or "arg1"
+        rows2 = [dict(r, atoms=[a.replace(" is ", "^%s is " % pn, 1) if a.startswith(" is ") else a for a in r["atoms"]], leaf=r["leaf"].replace("^return Result::Err\\(", "^return ").replace("\\)$", "$")) for r in rows[1:]]
+        match_table(ctx, "C03-R3", helper[0], walk(helper[0]), rows2, "Driver::send_datagram")
+    else:
+        match_table(ctx, "C03-R3", f, ps, rows, "Driver::send_datagram")
     pan = [path_sig(p)[0][-1] for p in ps if p.leaf[0] == "panic"]
     ctx.check("C03-R3", "send_datagram panic arms", all(a.endswith(" is Disabled") for a in pan), "Driver::send_datagram panics on an arm other than `Disabled`: %s" % pan, where(f))
     ctx.assume("O1: quinn::SendDatagramError::Disabled is mapped to unreachable!(): reachable only when the *local* datagram_receive_buffer_size fails "
